@@ -919,6 +919,10 @@ def r3b_line_source(rep, src):
     if len(srcs) != 1:
         raise AnalysisError('%s: the line iterator (BufferingIterator(...)) was not found' % f.site)
     e = srcs[0]
+    if isinstance(e, ast.Name) and e.id != param:
+        defs = [st.value for st in f.node.body if isinstance(st, ast.Assign) and len(st.targets) == 1 and norm(st.targets[0]) == e.id]
+        if len(defs) == 1:
+            e = defs[0]          # a local bound once to the source expression
     if isinstance(e, ast.Name) and e.id == param:
         rep.ok('C01.R3', f.site, 'line source', 'the lines are read from the argument directly', nontrivial=False)
     elif isinstance(e, ast.Call) and isinstance(e.func, ast.Name) and e.func.id in [g_.name for g_ in gens] and [norm(a) for a in e.args] == [param]:
